@@ -4,9 +4,19 @@ package main
 
 import (
 	"bytes"
+	"context"
+	"encoding/base64"
 	"fmt"
 	"strconv"
 	"strings"
+	"sync"
+
+	openfgav1 "github.com/openfga/api/proto/openfga/v1"
+	"google.golang.org/protobuf/types/known/wrapperspb"
+
+	"github.com/openfga/openfga/pkg/server"
+	"github.com/openfga/openfga/pkg/storage/memory"
+	"github.com/openfga/openfga/pkg/typesystem"
 
 	"github.com/openfga/openfga/pkg/encoder"
 	"github.com/openfga/openfga/pkg/encrypter"
@@ -58,6 +68,14 @@ func randB64ish(r *hx.Rand, max int) []byte {
 }
 
 func gen(r *hx.Rand, n int, tier string, emit func(string), st *hx.Stats) {
+	// server-level: every paginated endpoint must issue and accept only tokens under the configured key
+	for _, ep := range []string{"stores", "read", "changes", "models"} {
+		emit(fmt.Sprintf("api %s %s", ep, hx.H(randBytes(r.Fork(), 10))))
+		st.Inc("api")
+	}
+	// concurrent issuing through one shared encoder
+	emit(fmt.Sprintf("conc %s 16 400", hx.H(randBytes(r.Fork(), 10))))
+	st.Inc("conc")
 	for i := 0; i < n; i++ {
 		c := r.Fork()
 		switch k := c.Intn(10); k {
@@ -194,6 +212,40 @@ func exec(line string, st *hx.Stats) string {
 			return same + " rej"
 		}
 		return same + " acc " + hx.H(d2)
+	case "api":
+		return apiCase(f[1], string(hx.MustUnH(f[2])))
+	case "conc":
+		enc, err := encrypter.NewGCMEncrypter(string(hx.MustUnH(f[1])))
+		if err != nil {
+			return "keyerr"
+		}
+		te := encoder.NewTokenEncoder(enc, b64)
+		g, _ := strconv.Atoi(f[2])
+		k, _ := strconv.Atoi(f[3])
+		var bad int64
+		var mu sync.Mutex
+		var wg sync.WaitGroup
+		for i := 0; i < g; i++ {
+			wg.Add(1)
+			go func(i int) {
+				defer wg.Done()
+				for j := 0; j < k; j++ {
+					d := []byte(fmt.Sprintf("%d|%d", i, j))
+					tok, err := te.Encode(d)
+					if err != nil {
+						continue
+					}
+					d2, err := te.Decode(tok)
+					if err != nil || !bytes.Equal(d, d2) {
+						mu.Lock()
+						bad++
+						mu.Unlock()
+					}
+				}
+			}(i)
+		}
+		wg.Wait()
+		return fmt.Sprintf("bad=%d", bad)
 	case "xkey":
 		k1, k2 := hx.MustUnH(f[1]), hx.MustUnH(f[2])
 		e1, err1 := encrypter.NewGCMEncrypter(string(k1))
@@ -236,6 +288,99 @@ func exec(line string, st *hx.Stats) string {
 		return "ok " + hx.HS(u2) + " " + hx.HS(t2)
 	}
 	return "badcase"
+}
+
+// apiCase: an in-process server with an AES-GCM token encoder; page 1 of the endpoint with page size 1.
+// Output: "issued=<ok|plain|undecodable> next=<ok|err> forged=<rej|acc> foreign=<rej|acc>".
+func apiCase(ep, key string) string {
+	ctx := context.Background()
+	enc, err := encrypter.NewGCMEncrypter(key)
+	if err != nil {
+		return "keyerr"
+	}
+	te := encoder.NewTokenEncoder(enc, encoder.NewBase64Encoder())
+	other, _ := encrypter.NewGCMEncrypter(key + "-other")
+	foreign := encoder.NewTokenEncoder(other, encoder.NewBase64Encoder())
+	s, err := server.NewServerWithOpts(server.WithDatastore(memory.New()), server.WithTokenEncoder(te))
+	if err != nil {
+		return "servererr"
+	}
+	defer s.Close()
+	var storeID string
+	for i := 0; i < 4; i++ {
+		st, err := s.CreateStore(ctx, &openfgav1.CreateStoreRequest{Name: fmt.Sprintf("store-%d", i)})
+		if err != nil {
+			return "setuperr"
+		}
+		storeID = st.GetId()
+	}
+	model := &openfgav1.WriteAuthorizationModelRequest{StoreId: storeID, SchemaVersion: typesystem.SchemaVersion1_1,
+		TypeDefinitions: []*openfgav1.TypeDefinition{{Type: "user"}, {Type: "doc", Relations: map[string]*openfgav1.Userset{"viewer": {Userset: &openfgav1.Userset_This{}}},
+			Metadata: &openfgav1.Metadata{Relations: map[string]*openfgav1.RelationMetadata{"viewer": {DirectlyRelatedUserTypes: []*openfgav1.RelationReference{{Type: "user"}}}}}}}}
+	var modelID string
+	for i := 0; i < 3; i++ {
+		r, err := s.WriteAuthorizationModel(ctx, model)
+		if err != nil {
+			return "setuperr model"
+		}
+		modelID = r.GetAuthorizationModelId()
+	}
+	for i := 0; i < 4; i++ {
+		if _, err := s.Write(ctx, &openfgav1.WriteRequest{StoreId: storeID, AuthorizationModelId: modelID,
+			Writes: &openfgav1.WriteRequestWrites{TupleKeys: []*openfgav1.TupleKey{{Object: fmt.Sprintf("doc:%d", i), Relation: "viewer", User: "user:a"}}}}); err != nil {
+			return "setuperr write"
+		}
+	}
+	call := func(tok string) (string, error) {
+		switch ep {
+		case "stores":
+			r, err := s.ListStores(ctx, &openfgav1.ListStoresRequest{PageSize: wrapperspb.Int32(1), ContinuationToken: tok})
+			return r.GetContinuationToken(), err
+		case "read":
+			r, err := s.Read(ctx, &openfgav1.ReadRequest{StoreId: storeID, PageSize: wrapperspb.Int32(1), ContinuationToken: tok})
+			return r.GetContinuationToken(), err
+		case "changes":
+			r, err := s.ReadChanges(ctx, &openfgav1.ReadChangesRequest{StoreId: storeID, PageSize: wrapperspb.Int32(1), ContinuationToken: tok})
+			return r.GetContinuationToken(), err
+		default:
+			r, err := s.ReadAuthorizationModels(ctx, &openfgav1.ReadAuthorizationModelsRequest{StoreId: storeID, PageSize: wrapperspb.Int32(1), ContinuationToken: tok})
+			return r.GetContinuationToken(), err
+		}
+	}
+	tok, err := call("")
+	if err != nil || tok == "" {
+		return "notoken"
+	}
+	issued := "ok"
+	pos, derr := te.Decode(tok)
+	if derr != nil {
+		issued = "undecodable"
+		if _, e2 := base64.URLEncoding.DecodeString(tok); e2 == nil {
+			issued = "plain"
+		}
+	}
+	next := "ok"
+	if _, err := call(tok); err != nil {
+		next = "err"
+	}
+	// forged: the same position, never encrypted
+	forged := "rej"
+	plain := base64.URLEncoding.EncodeToString(pos)
+	if derr != nil {
+		plain = tok
+	}
+	if _, err := call(plain); err == nil && derr == nil {
+		forged = "acc"
+	}
+	// the same position under another key
+	fo := "rej"
+	if derr == nil {
+		ft, _ := foreign.Encode(pos)
+		if _, err := call(ft); err == nil {
+			fo = "acc"
+		}
+	}
+	return fmt.Sprintf("issued=%s next=%s forged=%s foreign=%s", issued, next, forged, fo)
 }
 
 func main() { hx.Main(hx.Harness{Gen: gen, Exec: exec}) }
